@@ -74,6 +74,14 @@ func (c ServerCleaner) cleanServers(
 ) (int, int) {
 	removed, errors := 0, 0
 	for _, svr := range servers {
+		// the records are fetched after the index scan: a server that was refreshed in between
+		// comes back with its new version, so the conflict check below would not be consulted
+		if svr.RefreshedAt.After(cleanUntil) {
+			c.logger.Info().
+				Stringer("server", svr).Stringer("refreshed", svr.RefreshedAt).
+				Msg("Outdated server has been refreshed in the meantime")
+			continue
+		}
 		err := c.serverRepo.Remove(ctx, svr, func(conflict *server.Server) bool {
 			if conflict.RefreshedAt.After(cleanUntil) {
 				c.logger.Info().
